@@ -1,524 +1,24 @@
 package c11
 
 import (
-	"context"
-	"errors"
-	"fmt"
-	"os"
-	"sort"
-	"strings"
-	"sync"
 	"testing"
 	"time"
 
-	"github.com/twmb/franz-go/pkg/kerr"
-	"github.com/twmb/franz-go/pkg/kfake"
-	"github.com/twmb/franz-go/pkg/kgo"
-	"github.com/twmb/franz-go/pkg/kmsg"
-	"github.com/twmb/franz-go/pkg/kversion"
-
+	"verif/checks/c11/tscen"
 	"verif/lib/explore"
-	"verif/lib/netctl"
 	"verif/lib/nrun"
-	"verif/lib/nscen"
 )
-
-// Scenario family T (DESIGN.md §4 C11): one transactional producer, topic t
-// with two partitions led by different brokers, one application thread that
-// runs two transactions back to back:
-//
-//	txn a: Begin, Produce a1->t/0, a2->t/1, Flush, EndTransaction(TryCommit)
-//	txn b: Begin, Produce b1->t/0, b2->t/1, Flush, EndTransaction(TryCommit)
-//
-// following the EndTransaction documentation on errors (retry with TryAbort).
-// Record values identify the transaction, so the final read_committed view
-// tells which transaction's End made a record visible.
-
-type txnLog struct {
-	Name        string
-	Recs        []string
-	Began       bool
-	BeginErr    error
-	Prom        map[string]error
-	PromCalls   map[string]int
-	FlushErr    error
-	CommitCall  bool
-	CommitErr   error
-	Recommit    bool // the application retried TryCommit after an unconfirmed commit
-	RecommitErr error
-	Aborts      []error
-	// frames observed at the proxy while this transaction was the current one
-	CommitReqs int // EndTxn(commit=true) requests delivered to the broker
-	AbortReqs  int // EndTxn(commit=false) requests delivered to the broker
-	OkResps    int // EndTxn responses with error code 0 delivered to the client
-}
-
-type state struct {
-	mu      sync.Mutex
-	cl      *kgo.Client
-	c       *kfake.Cluster
-	th      *netctl.Thread
-	phase   int
-	txns    []*txnLog
-	stopped string
-	group   bool
-}
-
-const callTimeout = 70 * time.Second
-
-func errClass(err error) string {
-	if err == nil {
-		return "nil"
-	}
-	var ke *kerr.Error
-	switch {
-	case errors.As(err, &ke):
-		return ke.Message
-	case errors.Is(err, context.DeadlineExceeded), errors.Is(err, context.Canceled):
-		return "ctx"
-	case errors.Is(err, kgo.ErrClientClosed):
-		return "closed"
-	}
-	s := err.Error()
-	switch {
-	case strings.Contains(s, "already in a transaction"):
-		return "already-in-txn"
-	case strings.Contains(s, "fatal, unrecoverable"):
-		return "fatal-pid"
-	case strings.Contains(s, "cannot retry a commit"):
-		return "commit-retry-refused"
-	case strings.Contains(s, "not in a transaction"):
-		return "not-in-txn"
-	case strings.Contains(s, "producer id"), strings.Contains(s, "producer ID"):
-		return "pid-load"
-	}
-	return "transport"
-}
-
-// retryAsAbort is the documented classification of EndTransaction errors
-// after which the application retries with TryAbort: OPERATION_NOT_ATTEMPTED,
-// TRANSACTION_ABORTABLE, and an unconfirmed outcome (transport error,
-// UNKNOWN_SERVER_ERROR, or a retriable broker code that outlived the client's
-// retries).
-func retryAsAbort(err error) bool {
-	var ke *kerr.Error
-	if errors.As(err, &ke) {
-		return ke.Retriable || errors.Is(err, kerr.OperationNotAttempted) || errors.Is(err, kerr.TransactionAbortable) || errors.Is(err, kerr.UnknownServerError)
-	}
-	if errors.Is(err, context.DeadlineExceeded) || errors.Is(err, context.Canceled) {
-		return false
-	}
-	return true
-}
-
-func faults(x *netctl.Exec, dir string, key int16, c *netctl.Conn) []string {
-	if dir == "resp" {
-		switch key {
-		case 22, 24, 0, 25, 28, 26:
-			return []string{"killafter"}
-		}
-		return nil
-	}
-	switch key {
-	case 22: // InitProducerID
-		return []string{"killbefore", "err:15", "err:51"}
-	case 24: // AddPartitionsToTxn
-		return []string{"killbefore", "err:15", "err:51"}
-	case 0: // Produce
-		return []string{"killbefore", "err:6", "err:47"}
-	case 25: // AddOffsetsToTxn
-		return []string{"killbefore", "err:14", "err:51"}
-	case 28: // TxnOffsetCommit
-		return []string{"killbefore", "err:14", "err:51"}
-	case 26: // EndTxn
-		return []string{"killbefore", "err:14", "err:16", "err:51", "err:47", "err:90"}
-	}
-	return nil
-}
-
-type variant struct {
-	name        string
-	tv1         bool // broker capped below KIP-890 part 2: explicit AddPartitionsToTxn, EndTxn v4
-	retries     int  // kgo.RequestRetries
-	alwaysAbort bool // application follows EVERY failed commit with one TryAbort (else only the documented classes)
-	probeCommit bool // after an unconfirmed commit the application first retries TryCommit once (documented to be refused)
-}
-
-func tv1Versions() *kversion.Versions {
-	v := kversion.Stable()
-	v.SetMaxKeyVersion(0, 11) // Produce < v12: no implicit partition add, no transaction.version feature
-	v.SetMaxKeyVersion(24, 3) // AddPartitionsToTxn
-	v.SetMaxKeyVersion(26, 4) // EndTxn < v5: no epoch bump
-	v.SetMaxKeyVersion(28, 4) // TxnOffsetCommit < v5: explicit AddOffsetsToTxn
-	return v
-}
-
-func scenario(v variant) *netctl.Scenario {
-	return &netctl.Scenario{
-		Name:      v.name,
-		Faults:    faults,
-		Horizon:   4 * time.Minute,
-		MaxPoints: 400,
-		Setup: func(x *netctl.Exec) {
-			opts := []kfake.Opt{kfake.SeedTopics(2, "t")}
-			if v.tv1 {
-				opts = append(opts, kfake.MaxVersions(tv1Versions()))
-			}
-			c := x.Cluster(2, opts...)
-			c.MoveTopicPartition("t", 0, 0)
-			c.MoveTopicPartition("t", 1, 1)
-			st := &state{c: c, phase: -1}
-			x.Data = st
-			st.cl = nscen.NewClient(x, "tx", c,
-				kgo.TransactionalID("tx"),
-				kgo.TransactionTimeout(10*time.Second),
-				kgo.RecordPartitioner(kgo.ManualPartitioner()),
-				kgo.ProducerLinger(0),
-				kgo.ProduceRequestTimeout(5*time.Second),
-				kgo.RequestRetries(v.retries),
-			)
-			x.FrameHook = func(conn *netctl.Conn, dir string, key, ver int16, frame []byte) {
-				if key != 26 {
-					return
-				}
-				st.mu.Lock()
-				defer st.mu.Unlock()
-				if st.phase < 0 {
-					return
-				}
-				tx := st.txns[st.phase]
-				if dir == "req" {
-					if req, _, ok := netctl.DecodeRequest(frame); ok {
-						if req.(*kmsg.EndTxnRequest).Commit {
-							tx.CommitReqs++
-						} else {
-							tx.AbortReqs++
-						}
-					}
-				} else if resp, ok := netctl.DecodeResponse(frame, key, ver); ok {
-					if resp.(*kmsg.EndTxnResponse).ErrorCode == 0 {
-						tx.OkResps++
-					}
-				}
-			}
-			for _, n := range []string{"a", "b"} {
-				st.txns = append(st.txns, &txnLog{Name: n, Recs: []string{n + "1", n + "2"}, Prom: map[string]error{}, PromCalls: map[string]int{}})
-			}
-			st.th = x.Thread("T", func(t *netctl.Thread) {
-				for i := range st.txns {
-					if !runTxn(x, st, t, i, v) {
-						return
-					}
-				}
-			})
-		},
-		Final: final,
-	}
-}
-
-// runTxn runs one transaction; it returns false if the application must stop
-// (fatal producer state, or a call that did not return within its context).
-func runTxn(x *netctl.Exec, st *state, t *netctl.Thread, i int, v variant) bool {
-	tx := st.txns[i]
-	stop := func(why string) bool {
-		st.mu.Lock()
-		st.stopped = tx.Name + ":" + why
-		st.mu.Unlock()
-		return false
-	}
-	t.Step("begin-" + tx.Name)
-	if err := st.cl.BeginTransaction(); err != nil {
-		st.mu.Lock()
-		tx.BeginErr = err
-		st.mu.Unlock()
-		return stop("begin:" + errClass(err))
-	}
-	st.mu.Lock()
-	tx.Began = true
-	st.phase = i
-	st.mu.Unlock()
-	for p, name := range tx.Recs {
-		name := name
-		t.Step("produce-" + name)
-		st.cl.Produce(context.Background(), &kgo.Record{Topic: "t", Partition: int32(p), Value: []byte(name)}, func(_ *kgo.Record, err error) {
-			st.mu.Lock()
-			tx.PromCalls[name]++
-			if tx.PromCalls[name] == 1 {
-				tx.Prom[name] = err
-			}
-			st.mu.Unlock()
-		})
-	}
-	t.Step("flush-" + tx.Name)
-	ctx, cancel := context.WithTimeout(context.Background(), callTimeout)
-	err := st.cl.Flush(ctx)
-	cancel()
-	if err != nil {
-		st.mu.Lock()
-		tx.FlushErr = err
-		st.mu.Unlock()
-		return stop("flush:" + errClass(err))
-	}
-	st.mu.Lock()
-	allOK := true
-	for _, n := range tx.Recs {
-		if tx.PromCalls[n] == 0 || tx.Prom[n] != nil {
-			allOK = false
-		}
-	}
-	st.mu.Unlock()
-	needAbort := !allOK
-	if allOK {
-		t.Step("commit-" + tx.Name)
-		ctx, cancel := context.WithTimeout(context.Background(), callTimeout)
-		err := st.cl.EndTransaction(ctx, kgo.TryCommit)
-		cancel()
-		st.mu.Lock()
-		tx.CommitCall, tx.CommitErr = true, err
-		st.mu.Unlock()
-		switch {
-		case err == nil:
-			return true
-		case errClass(err) == "ctx":
-			return stop("commit:ctx")
-		case v.alwaysAbort || retryAsAbort(err):
-			needAbort = true
-		}
-		var ke *kerr.Error
-		if needAbort && v.probeCommit && (!errors.As(err, &ke) || errors.Is(err, kerr.UnknownServerError)) {
-			// Unconfirmed outcome. The documentation says a TryCommit retry is
-			// refused; if it is not (nil), the application is entitled to
-			// believe the transaction committed.
-			t.Step("recommit-" + tx.Name)
-			ctx, cancel := context.WithTimeout(context.Background(), callTimeout)
-			err := st.cl.EndTransaction(ctx, kgo.TryCommit)
-			cancel()
-			st.mu.Lock()
-			tx.Recommit, tx.RecommitErr = true, err
-			st.mu.Unlock()
-			if err == nil {
-				return true
-			}
-			if errClass(err) == "ctx" {
-				return stop("recommit:ctx")
-			}
-		}
-	}
-	for tries := 0; needAbort && tries < 3; tries++ {
-		t.Step("abort-" + tx.Name)
-		ctx, cancel := context.WithTimeout(context.Background(), callTimeout)
-		err := st.cl.EndTransaction(ctx, kgo.TryAbort)
-		cancel()
-		st.mu.Lock()
-		tx.Aborts = append(tx.Aborts, err)
-		st.mu.Unlock()
-		if err == nil {
-			break
-		}
-		if errClass(err) == "ctx" {
-			return stop("abort:ctx")
-		}
-		if !retryAsAbort(err) {
-			break
-		}
-	}
-	return true
-}
-
-func txnOf(value string) string {
-	if len(value) == 2 && (value[0] == 'a' || value[0] == 'b') && (value[1] == '1' || value[1] == '2') {
-		return value[:1]
-	}
-	return ""
-}
-
-func readAll(x *netctl.Exec, st *state) (logs [2][]nscen.LogRecord, visible, open []nscen.LogRecord) {
-	for p := int32(0); p < 2; p++ {
-		logs[p] = nscen.ReadRaw(x, st.c, "t", p)
-		v, o := nscen.Committed(logs[p])
-		visible = append(visible, v...)
-		open = append(open, o...)
-	}
-	return
-}
-
-// ownMarker reports whether, for every visible record of transaction tx, the
-// control marker that decided it precedes every record of later transactions
-// in the same partition (i.e. the deciding marker is this transaction's own
-// end, not the end of a later transaction it was merged into).
-func ownMarker(logs [2][]nscen.LogRecord, tx string) bool {
-	for _, log := range logs {
-		for i, r := range log {
-			if r.Control || txnOf(r.Value) != tx {
-				continue
-			}
-			for _, m := range log[i+1:] {
-				if m.Control && m.PID == r.PID {
-					break
-				}
-				if !m.Control && txnOf(m.Value) > tx {
-					return false
-				}
-			}
-		}
-	}
-	return true
-}
-
-func final(x *netctl.Exec) {
-	st := x.Data.(*state)
-	// Pass-through: let the application finish (every call is bounded by its context).
-	deadline := time.Now().Add(12 * time.Minute)
-	for !st.th.Done() && time.Now().Before(deadline) {
-		time.Sleep(200 * time.Millisecond)
-	}
-	appDone := st.th.Done()
-	// Longer than the transaction timeout: whatever the client left open is
-	// aborted by the coordinator before we judge.
-	time.Sleep(15 * time.Second)
-	logs, visible, open := readAll(x, st)
-	for waited := 0; len(open) > 0 && waited < 12; waited++ {
-		time.Sleep(5 * time.Second)
-		logs, visible, open = readAll(x, st)
-	}
-	st.mu.Lock()
-	defer st.mu.Unlock()
-	count := map[string]int{}
-	for _, r := range visible {
-		if txnOf(r.Value) == "" {
-			x.Violate("harness:unknown-record", "unexpected record %q in t/%d", r.Value, r.Partition)
-			continue
-		}
-		count[r.Value]++
-	}
-	openSet := map[string]bool{}
-	for _, r := range open {
-		openSet[r.Value] = true
-	}
-	var obs []string
-	for _, tx := range st.txns {
-		var vis []string
-		nvis, dup := 0, false
-		for _, n := range tx.Recs {
-			if count[n] > 0 {
-				nvis++
-				vis = append(vis, n)
-			}
-			if count[n] > 1 {
-				dup = true
-			}
-		}
-		committed := tx.CommitCall && (tx.CommitErr == nil || (tx.Recommit && tx.RecommitErr == nil))
-		desc := describe(tx)
-		switch {
-		case committed:
-			for _, n := range tx.Recs {
-				if count[n] == 0 {
-					x.Violate("commit-ok-not-visible", "transaction %s: EndTransaction(TryCommit) returned nil but record %s is not in the read_committed view (open=%v); %s", tx.Name, n, openSet[n], desc)
-				}
-			}
-			if dup {
-				x.Violate("visible-twice", "transaction %s committed, a record is visible more than once: %v; %s", tx.Name, count, desc)
-			}
-		case nvis > 0:
-			// Not reported as committed, yet visible. The only excusable case
-			// is an unconfirmed commit: the commit request reached the broker
-			// during this transaction's End call, the client could not confirm
-			// it and said so (error), and the records became visible through
-			// this transaction's OWN marker, completely and once.
-			ambiguous := tx.CommitCall && !committed && tx.CommitReqs > 0 && ownMarker(logs, tx.Name)
-			switch {
-			case !ambiguous && !ownMarker(logs, tx.Name):
-				x.Violate("merged-into-next-txn", "transaction %s was not reported committed but %v became visible through a LATER transaction's commit marker; %s", tx.Name, vis, desc)
-			case !ambiguous && !tx.CommitCall:
-				x.Violate("aborted-visible", "transaction %s was never committed by the application but %v is visible; %s", tx.Name, vis, desc)
-			case !ambiguous:
-				x.Violate("errored-commit-visible", "transaction %s: EndTransaction(TryCommit) returned %v, no commit request reached the broker during that call, yet %v is visible; %s", tx.Name, tx.CommitErr, vis, desc)
-			case nvis != len(tx.Recs) || dup:
-				x.Violate("unconfirmed-commit-partial", "transaction %s: unconfirmed commit became visible partially or twice: %v; %s", tx.Name, count, desc)
-			default:
-				x.Count("unconfirmed_commit_took_effect", 1)
-				desc += " UNCONFIRMED-COMMIT-VISIBLE"
-			}
-		}
-		for n, c := range tx.PromCalls {
-			if c > 1 {
-				x.Violate("promise-twice", "record %s promised %d times", n, c)
-			}
-		}
-		obs = append(obs, desc+" vis="+strings.Join(vis, ","))
-	}
-	if len(open) > 0 {
-		x.Count("open_after_timeout", 1)
-		obs = append(obs, fmt.Sprintf("OPEN-AFTER-TIMEOUT=%d", len(open)))
-	}
-	if !appDone {
-		x.Count("app_not_done", 1)
-		obs = append(obs, "APP-NOT-DONE")
-	}
-	if st.stopped != "" {
-		obs = append(obs, "stopped="+st.stopped)
-	}
-	x.Observe("%s", strings.Join(obs, " ; "))
-	if os.Getenv("VERIF_OBSLOG") != "" {
-		fmt.Fprintf(os.Stderr, "OBS %s\n", strings.Join(obs, " ; "))
-	}
-}
-
-func describe(tx *txnLog) string {
-	var s []string
-	s = append(s, tx.Name+":")
-	if !tx.Began {
-		if tx.BeginErr != nil {
-			s = append(s, "begin="+errClass(tx.BeginErr))
-		} else {
-			s = append(s, "not-begun")
-		}
-		return strings.Join(s, " ")
-	}
-	var pr []string
-	for _, n := range tx.Recs {
-		if tx.PromCalls[n] == 0 {
-			pr = append(pr, n+"=none")
-		} else {
-			pr = append(pr, n+"="+errClass(tx.Prom[n]))
-		}
-	}
-	sort.Strings(pr)
-	s = append(s, strings.Join(pr, ","))
-	if tx.FlushErr != nil {
-		s = append(s, "flush="+errClass(tx.FlushErr))
-	}
-	if tx.CommitCall {
-		s = append(s, "commit="+errClass(tx.CommitErr))
-	}
-	if tx.Recommit {
-		s = append(s, "recommit="+errClass(tx.RecommitErr))
-	}
-	for _, e := range tx.Aborts {
-		s = append(s, "abort="+errClass(e))
-	}
-	s = append(s, fmt.Sprintf("endtxn(c=%d,a=%d,ok=%d)", tx.CommitReqs, tx.AbortReqs, tx.OkResps))
-	return strings.Join(s, " ")
-}
-
-var plans = []nrun.Plan{
-	{Scenario: scenario(variant{name: "T-tv2", retries: 1, alwaysAbort: true}), QuickBudget: 1, ThoroughBudget: 2, Weight: 1},
-	{Scenario: scenario(variant{name: "T-tv1", tv1: true, retries: 1, alwaysAbort: true}), QuickBudget: 1, ThoroughBudget: 2, Weight: 1},
-	{Scenario: scenario(variant{name: "T-tv2-r0", retries: 0, probeCommit: true}), QuickBudget: 1, ThoroughBudget: 2, Weight: 1},
-	{Scenario: scenario(variant{name: "T-tv1-r0", tv1: true, retries: 0, probeCommit: true}), QuickBudget: 1, ThoroughBudget: 2, Weight: 1},
-}
 
 func TestC11(t *testing.T) {
 	if explore.IsWorker() {
-		serveWorker(t, plans)
+		// same protocol as nrun's worker loop, more tolerant of unowned nondeterminism (see tscen.ServeWorker)
+		tscen.ServeWorker(t, tscen.Plans())
 		return
 	}
 	nrun.Main(t, &nrun.Check{
-		ID: "C11", TestName: "TestC11", Plans: plans,
+		ID: "C11", TestName: "TestC11", Plans: tscen.Plans(),
 		QuickTime: 75 * time.Second, ThorTime: 18 * time.Minute,
-		Rule:   "engine N: every order of application calls (Begin/Produce x2/Flush/EndTransaction(TryCommit)/documented TryAbort retries, two transactions back to back), request/response frame deliveries, timer ticks (transaction timeout 10 s) and injected faults on InitProducerID, AddPartitionsToTxn, Produce, EndTxn (connection kill before/after handling, COORDINATOR_NOT_AVAILABLE/LOAD_IN_PROGRESS/NOT_COORDINATOR, CONCURRENT_TRANSACTIONS, NOT_LEADER, INVALID_PRODUCER_EPOCH, PRODUCER_FENCED) within k deviations of the default order; four scenarios: KIP-890p2 broker and TV1 broker (Produce v11/EndTxn v4, explicit AddPartitionsToTxn) x RequestRetries 1 (application always aborts after a failed commit) and RequestRetries 0 (one lost response already surfaces an unconfirmed End; application retries TryAbort only for the documented error classes); distinct = distinct terminal outcomes (per transaction: promise results, End results, EndTxn frames seen, visible records)",
+		Rule:   "engine N: every order of application calls (Begin/Produce x2/Flush/EndTransaction(TryCommit)/documented TryAbort retries, two transactions back to back), request/response frame deliveries, timer ticks (transaction timeout 10 s) and injected faults on InitProducerID, AddPartitionsToTxn, Produce, EndTxn (connection kill before/after handling, COORDINATOR_NOT_AVAILABLE/LOAD_IN_PROGRESS/NOT_COORDINATOR, CONCURRENT_TRANSACTIONS, NOT_LEADER, INVALID_PRODUCER_EPOCH, PRODUCER_FENCED) within k deviations of the default order; six scenarios: KIP-890p2 broker and TV1 broker (Produce v11/EndTxn v4, explicit AddPartitionsToTxn) x RequestRetries 1 (application always aborts after a failed commit) and RequestRetries 0 (one lost response already surfaces an unconfirmed End; application retries TryAbort only for the documented error classes and first probes the documented refusal of a TryCommit retry), plus T-offsets / T-offsets-tv1: the same two transactions through a single-member GroupTransactSession (one input record polled per transaction, AddOffsetsToTxn/TxnOffsetCommit in the sequence, faults also on those) where additionally the group's committed offset must be exactly that of the last transaction whose records are visible. Quick tier: k=1 complete, then pairs of faults (k=2, both deviations faults) until the time slice ends; thorough tier: all pairs of deviations (k=2); distinct = distinct terminal outcomes (per transaction: promise results, End results, EndTxn frames seen, visible records)",
 		Assume: []string{"kfake is the broker (transactions complete synchronously)", "read_committed view computed from the raw log (next control marker of the producer id decides)", "an End that returned an error after its commit request reached the broker is an unconfirmed outcome: its records may be visible, but only through that transaction's own marker, completely and once", "synctests build of xsync", "goroutine micro-interleavings inside one event are the Go runtime's"},
 	})
-	_ = explore.Job{}
 }
